@@ -116,9 +116,27 @@ def r13_2_zone_interval_cache(ctx: Ctx) -> RuleResult:
                     for a, p in zip(n.args, callee.value_params):
                         if isinstance(a, ast.Name) and a.id in exact:
                             exact.add(p.arg)
-    cmp_ok = any(isinstance(n, ast.Compare) and len(n.ops) == 1 and isinstance(n.ops[0], ast.NotEq) and (
-        (unparse(n.left).endswith("._period") and isinstance(n.comparators[0], ast.Name) and n.comparators[0].id in exact)
-        or (unparse(n.comparators[0]).endswith("._period") and isinstance(n.left, ast.Name) and n.left.id in exact)) for n in nodes)
+    # the node is trusted exactly on the paths that do not (re)populate the slot: there the facts must include
+    # `<node>._period == <exact period>` - however the test is spelt (negated, De Morgan, hit-first or miss-first)
+    from ..exc import atoms
+
+    def has_eq(facts) -> bool:
+        for a, op, b in facts:
+            if op == "==":
+                for x, y in ((a, b), (b, a)):
+                    if x.endswith("._period") and y in exact:
+                        return True
+        return False
+
+    cmp_ok = False
+    for n in nodes:
+        if isinstance(n, ast.If):
+            fills = any(isinstance(x, ast.Assign) and any(isinstance(t, ast.Subscript) and "cache" in unparse(t.value).lower() for t in x.targets) for b in n.body for x in ast.walk(b))
+            fills_else = any(isinstance(x, ast.Assign) and any(isinstance(t, ast.Subscript) and "cache" in unparse(t.value).lower() for t in x.targets) for b in n.orelse for x in ast.walk(b))
+            if fills and has_eq(atoms(n.test, False)):
+                cmp_ok = True
+            if (fills_else or (not fills and any(isinstance(x, ast.Return) for b in n.body for x in ast.walk(b)))) and has_eq(atoms(n.test, True)):
+                cmp_ok = True
     if not cmp_ok:
         probs.append("the cached node is not compared with the exact (unmasked) period")
     reads = sum(1 for n in nodes if isinstance(n, ast.Subscript) and isinstance(n.ctx, ast.Load) and "instant_cache" in unparse(n.value))
